@@ -83,7 +83,15 @@ fn build_frame(pool: &str) -> Option<(Vec<u8>, usize)> {
             return None;
         }
         let cie_off = sec.len() as u32;
-        sec.extend(debug_frame_cie(8, 1, -8, 16, &unhex(p[0])?));
+        let cie_insns = unhex(p[0])?;
+        if cie_insns.is_empty() {
+            // a CIE with ZERO-LENGTH initial instructions (no nop padding either: `debug_frame_cie`
+            // pads to the address size, and padding is instructions): length 9 = id, version,
+            // augmentation "", code factor 1, data factor -8, return address register 16
+            sec.extend_from_slice(&[9, 0, 0, 0, 0xff, 0xff, 0xff, 0xff, 1, 0, 1, 0x78, 16]);
+        } else {
+            sec.extend(debug_frame_cie(8, 1, -8, 16, &cie_insns));
+        }
         sec.extend(debug_frame_fde(8, cie_off, p[2].parse().ok()?, p[3].parse().ok()?, &unhex(p[1])?));
         n += 1;
     }
@@ -648,6 +656,9 @@ fn fde_pool() -> Vec<(Vec<u8>, Vec<u8>, u64, u64)> {
         // 19-20: histories that leave distinctive rows in the upper slots (depth 3 and 4)
         (two.clone(), vec![CFA_REMEMBER_STATE, CFA_DEF_CFA, 3, 0x33, CFA_GNU_ARGS_SIZE, 0x30, CFA_ADVANCE_LOC | 1, CFA_REMEMBER_STATE, CFA_DEF_CFA, 4, 0x44, CFA_GNU_ARGS_SIZE, 0x40, CFA_ADVANCE_LOC | 1], 0x14000, 0x20),
         (cfa.clone(), vec![CFA_REMEMBER_STATE, CFA_DEF_CFA, 5, 0x55, CFA_REMEMBER_STATE, CFA_DEF_CFA, 6, 0x66, CFA_REMEMBER_STATE, CFA_ADVANCE_LOC | 1], 0x15000, 0x20),
+        // 21 (and 9): a CIE with zero-length initial instructions — `initialize` has nothing to run, but must still
+        // start from a reset context; the FDE restores a register (to "no rule") and pops a remembered row
+        (vec![], vec![CFA_DEF_CFA, 3, 8, CFA_ADVANCE_LOC | 1, CFA_OFFSET | 3, 1, CFA_ADVANCE_LOC | 1, CFA_RESTORE | 3, CFA_ADVANCE_LOC | 1, CFA_REMEMBER_STATE, CFA_ADVANCE_LOC | 1, CFA_RESTORE_STATE], 0x16000, 0x20),
     ]
 }
 
